@@ -217,10 +217,21 @@ def _mul_broadcast_block(tr, stmts):
             if isinstance(n, ast.Name) and n.id in arrs: raise Refuse('_mul_broadcast: array used other than through .shape/.size/broadcast_to')
     return new, lambda env: V([env['a_bc'], env['a_shape'], env['a_offset'], env['b_bc'], env['b_shape'], env['b_offset']])
 
+def _mul_broadcast_block_z(tr, stmts):
+    """the same with shapes that may be `()`: a shape enters as the triple (ndim, d0, d1) with `()` encoded as (0, 1, 1) and a 2-D
+    shape as (2, d0, d1) — two shapes are equal as Python tuples iff their triples are — through the attribute `shape` of the
+    parameters A / B (kind ('vec', 3))"""
+    new, final = _mul_broadcast_block(tr, stmts)
+    return ast.parse('a_shape = A.shape\nb_shape = B.shape').body + new, final
+
+_SHP3 = ('attr', {'shape': ('vec', 3)})
 FIELDBROADCAST = {
     '_mul_broadcast': {'lean_name': 'mulBroadcast', 'block': _mul_broadcast_block,
                        'params': [('a_shape', 'pair'), ('a_size', 'int'), ('a_offset', 'pair'),
                                   ('b_shape', 'pair'), ('b_size', 'int'), ('b_offset', 'pair')]},
+    '_mul_broadcast#nd': {'py_name': '_mul_broadcast', 'lean_name': 'mulBroadcastZ', 'block': _mul_broadcast_block_z,
+                          'params': [('A', _SHP3), ('a_size', 'int'), ('a_offset', 'pair'),
+                                     ('B', _SHP3), ('b_size', 'int'), ('b_offset', 'pair')]},
 }
 
 # ------------------------------------------------------------------------------------------------ Field._mul_array
@@ -331,6 +342,145 @@ FIELDINIT = {
 
 generate_field_init = _generate_with_extent(FIELDINIT, 'Field.__init__: offset default and cached extent; data / pixelscale / tilt assignments checked textually')
 
+# ------------------------------------------------------------------------------------------------ _merge: statement flow
+def generate_merge_flow(repo):
+    """Gen/FieldMergeFlow.lean: the statements of `lentil.field._merge` after the pixelscale guard —
+    `out = np.zeros(H1(fields), dtype=complex)`, `slices = H2(fields)`, `for field, slc in zip(fields, slices): out[slc] += field.data`,
+    `return Field(data=out, pixelscale=fields[0].pixelscale, offset=H3(fields))` — as: the fill value of the canvas, which helper
+    gives its shape / the per-field slice / the result offset (emitted as calls of the generated helpers of Gen/FieldIdx.lean and
+    Gen/FieldMerge.lean, so a swapped helper is a type error or a different definition), and whether the loop accumulates in place.
+    `Lentil.mergeFlowL` (Model/FieldMergeFlow.lean) runs them; `Props/C06.merge_flow_spec`: = `mergeL`."""
+    import os
+    mod = ast.parse(open(os.path.join(repo, 'lentil/field.py')).read())
+    fn = [n for n in mod.body if isinstance(n, ast.FunctionDef) and n.name == '_merge']
+    if len(fn) != 1: raise Refuse('field.py: _merge not found')
+    body = [s for s in fn[0].body if not (isinstance(s, ast.Expr) and isinstance(s.value, ast.Constant))]
+    if len(body) != 5: raise Refuse('_merge: expected guard, canvas, slices, loop, return')
+    same = lambda st, txt: ast.dump(st) == ast.dump(ast.parse(txt).body[0])
+    if not same(body[0], 'if not np.all([f.pixelscale == fields[0].pixelscale for f in fields]):\n    raise ValueError("Can\'t merge: pixelscales must be equal")'):
+        raise Refuse('_merge: pixelscale guard changed')
+    helpers = {'_merge_shape': 'mergeShape', '_merge_slices': 'mergeSlice', '_merge_offset': 'mergeOffset'}
+    def helper(call, what):
+        if not (isinstance(call, ast.Call) and isinstance(call.func, ast.Name) and call.func.id in helpers and not call.keywords
+                and len(call.args) == 1 and ast.unparse(call.args[0]) == 'fields'):
+            raise Refuse(f'_merge: {what} is not a helper called on `fields`: ' + ast.unparse(call)[:60])
+        return helpers[call.func.id]
+    # canvas
+    cv = body[1]
+    if not (isinstance(cv, ast.Assign) and len(cv.targets) == 1 and ast.unparse(cv.targets[0]) == 'out' and isinstance(cv.value, ast.Call)
+            and ast.unparse(cv.value.func) in ('np.zeros', 'np.ones') and len(cv.value.args) == 1
+            and [(k.arg, ast.unparse(k.value)) for k in cv.value.keywords] == [('dtype', 'complex')]):
+        raise Refuse('_merge: canvas statement changed: ' + ast.unparse(cv)[:80])
+    fill = 0 if ast.unparse(cv.value.func) == 'np.zeros' else 1
+    h_shape = helper(cv.value.args[0], 'canvas shape')
+    # slices
+    sl = body[2]
+    if not (isinstance(sl, ast.Assign) and len(sl.targets) == 1 and ast.unparse(sl.targets[0]) == 'slices'): raise Refuse('_merge: slices statement changed')
+    h_slice = helper(sl.value, 'slices')
+    # loop
+    lp = body[3]
+    if not (isinstance(lp, ast.For) and not lp.orelse and len(lp.body) == 1 and isinstance(lp.target, ast.Tuple)
+            and [ast.unparse(x) for x in lp.target.elts] == ['field', 'slc'] and ast.unparse(lp.iter) == 'zip(fields, slices)'):
+        raise Refuse('_merge: loop header changed: ' + ast.unparse(lp).split('\n')[0][:80])
+    st = lp.body[0]
+    if isinstance(st, ast.AugAssign) and isinstance(st.op, ast.Add): inplace, tgt = True, st.target
+    elif isinstance(st, ast.Assign) and len(st.targets) == 1: inplace, tgt = False, st.targets[0]
+    else: raise Refuse('_merge: loop statement is neither `+=` nor `=`: ' + ast.unparse(st)[:60])
+    if ast.unparse(tgt) != 'out[slc]' or ast.unparse(st.value) != 'field.data': raise Refuse('_merge: loop statement changed: ' + ast.unparse(st)[:60])
+    # result
+    rt = body[4]
+    if not (isinstance(rt, ast.Return) and isinstance(rt.value, ast.Call) and ast.unparse(rt.value.func) == 'Field' and not rt.value.args):
+        raise Refuse('_merge: does not return Field(...)')
+    kw = {k.arg: k.value for k in rt.value.keywords}
+    if sorted(kw) != ['data', 'offset', 'pixelscale'] or ast.unparse(kw['data']) != 'out' or ast.unparse(kw['pixelscale']) != 'fields[0].pixelscale':
+        raise Refuse('_merge: arguments of the returned Field changed')
+    h_off = helper(kw['offset'], 'result offset')
+    args = {'mergeShape': 'b_0 b_1 b_2 b_3 all0d', 'mergeOffset': 'b_0 b_1 b_2 b_3', 'mergeSlice': 'b_0 b_1 b_2 b_3 e_0 e_1 e_2 e_3'}
+    def wrap(name, role_helper, params, ty, doc):
+        need = args[role_helper].split()
+        if not set(need) <= set(params.split()): raise Refuse(f'_merge: {role_helper} cannot stand where {name} is needed')
+        return f'/-- translated from `field.py:_merge` (line {fn[0].lineno}): {doc} -/\ndef {name} ({params} : Int) : {ty} :=\n  {role_helper} {args[role_helper]}\n'
+    b = lambda x: 'true' if x else 'false'
+    text = '\n'.join([
+        f'/-- translated from `field.py:_merge` (line {fn[0].lineno}): initial value of every canvas sample (`np.zeros` = 0, `np.ones` = 1) -/\ndef mergeCanvasFill : Int := ({fill} : Int)\n',
+        wrap('mergeCanvasShape', h_shape, 'b_0 b_1 b_2 b_3 all0d', '(Option (Int × Int))', 'the helper inside `np.zeros(…(fields), dtype=complex)`'),
+        wrap('mergeFieldSlice', h_slice, 'b_0 b_1 b_2 b_3 e_0 e_1 e_2 e_3', '((Int × Int) × (Int × Int))', 'the helper of `slices = …(fields)`, per field (zip(fields, slices): same order)'),
+        f'/-- translated from `field.py:_merge` (line {fn[0].lineno}): `out[slc] += field.data` accumulates in place (`+=`) rather than overwrites (`=`) -/\ndef mergeLoopInPlace : Bool := {b(inplace)}\n',
+        wrap('mergeResultOffset', h_off, 'b_0 b_1 b_2 b_3', '(Int × Int)', 'the helper of `offset=…(fields)` in the returned Field (its data is `out`)'),
+    ])
+    return text, ['_merge: canvas fill, helper wiring (shape / slices / offset), in-place accumulation; guard, zip order and Field(...) arguments checked structurally']
+
+# ------------------------------------------------------------------------------------------------ overlap: value of the pair branch
+def _overlap_pair_value(tr, stmts):
+    """`overlap(fields)`, branch `len(fields) == 2`: the returned expression with `fields[0].extent` / `fields[1].extent` read as
+    the extent parameters e0 / e1 (any other use of `fields` is refused by the translator: unknown name)"""
+    top = _first_if(stmts)
+    if top is None or len(top.body) != 1 or not isinstance(top.body[0], ast.Return): raise Refuse('overlap: pair branch is not a single return')
+    class Rw(ast.NodeTransformer):
+        def visit_Attribute(self, node):
+            v = node.value
+            if node.attr == 'extent' and isinstance(v, ast.Subscript) and isinstance(v.value, ast.Name) and v.value.id == 'fields' \
+                    and isinstance(v.slice, ast.Constant) and v.slice.value in (0, 1):
+                return ast.Name(id=f'e{v.slice.value}', ctx=ast.Load())
+            return self.generic_visit(node)
+    import copy
+    return [ast.fix_missing_locations(Rw().visit(copy.deepcopy(top.body[0])))], None
+
+FIELDOVERLAPPAIR = {
+    'overlap#pair_value': {'py_name': 'overlap', 'lean_name': 'overlapPairValue', 'block': _overlap_pair_value,
+                           'params': [('e0', 'ext'), ('e1', 'ext')]},
+}
+generate_overlap_pair = _generate_with_extent(FIELDOVERLAPPAIR, 'overlap: value returned for two fields (extent test on fields[0], fields[1])')
+
+
+def generate_reduce_flow(repo):
+    """Gen/FieldReduceFlow.lean: what `lentil.field.reduce` appends for a group `f` in each branch of
+    `if len(f['field']) > 1:` (the test itself is Gen.FieldDispatch.reduceMerges): `_merge(f['field'])` = the merge of the whole
+    group, `f['field'][k]` = its k-th member; and that the groups come from `_reduce(fields)` and go out in order."""
+    import os
+    mod = ast.parse(open(os.path.join(repo, 'lentil/field.py')).read())
+    fn = [n for n in mod.body if isinstance(n, ast.FunctionDef) and n.name == 'reduce']
+    if len(fn) != 1: raise Refuse('field.py: reduce not found')
+    body = [s for s in fn[0].body if not (isinstance(s, ast.Expr) and isinstance(s.value, ast.Constant))]
+    if [ast.unparse(x) for x in (body[0], body[1], body[-1])] != ['fields = _reduce(fields)', 'out = []', 'return out'] or len(body) != 4:
+        raise Refuse('reduce: statements around the loop changed')
+    lp = body[2]
+    if not (isinstance(lp, ast.For) and ast.unparse(lp.target) == 'f' and ast.unparse(lp.iter) == 'fields' and len(lp.body) == 1
+            and isinstance(lp.body[0], ast.If) and len(lp.body[0].body) == 1 and len(lp.body[0].orelse) == 1 and not lp.orelse):
+        raise Refuse('reduce: loop changed')
+    def value(st):
+        if not (isinstance(st, ast.Expr) and isinstance(st.value, ast.Call) and ast.unparse(st.value.func) == 'out.append'
+                and len(st.value.args) == 1 and not st.value.keywords): raise Refuse('reduce: branch is not out.append(...)')
+        v = st.value.args[0]
+        if ast.unparse(v) == "_merge(f['field'])": return '.mergeAll'
+        if isinstance(v, ast.Subscript) and ast.unparse(v.value) == "f['field']" and isinstance(v.slice, ast.Constant) and isinstance(v.slice.value, int) \
+                and v.slice.value >= 0: return f'(.member {v.slice.value})'
+        raise Refuse('reduce: appended value not understood: ' + ast.unparse(v)[:60])
+    node = lp.body[0]
+    text = f"""/-- what `reduce` appends for a group: the merge of all its members or its k-th member -/
+inductive GroupOut where
+  | mergeAll
+  | member (k : Nat)
+deriving Repr, DecidableEq
+
+/-- translated from `field.py:reduce` (line {fn[0].lineno}): appended when `len(f['field']) > 1` -/
+def reduceThenOut : GroupOut := {value(node.body[0])}
+/-- translated from `field.py:reduce` (line {fn[0].lineno}): appended otherwise -/
+def reduceElseOut : GroupOut := {value(node.orelse[0])}
+"""
+    return text, ['reduce: appended value of both branches; `fields = _reduce(fields)`, the loop over the groups in order and `return out` checked structurally']
+
+# _merge_slices: the test of the origin branch (`out = [Ellipsis for field in fields]`, i.e. every slice is the whole array)
+def _merge_slices_origin(tr, stmts):
+    node = _first_if(stmts)
+    if node is None or ast.unparse(node.body).strip() != 'out = [Ellipsis for field in fields]': raise Refuse('_merge_slices: origin branch changed')
+    if ast.unparse(stmts[-1]).strip() != 'return out': raise Refuse('_merge_slices: return changed')
+    return [], lambda env: tr.expr(node.test, env)
+FIELDMERGEORIGIN = {
+    '_merge_slices#origin': {'py_name': '_merge_slices', 'lean_name': 'mergeSlicesOrigin',
+                             'params': [('rmin', 'int'), ('rmax', 'int'), ('cmin', 'int'), ('cmax', 'int')], 'block': _merge_slices_origin},
+}
+
 FIELDDISPATCH = {
     # Field.__mul__: `if self.size == 1 and other.size == 1:` -> _mul_scalar, else _mul_array
     '__mul__#both_one': {'py_name': '__mul__', 'lean_name': 'mulBothOne', 'params': [('self', _SZ), ('other', _SZ)],
@@ -354,6 +504,11 @@ FIELDDISPATCH = {
 }
 
 MODULES = [
+    {'name': 'FieldMergeOrigin', 'src': 'lentil/field.py', 'sigs': FIELDMERGEORIGIN, 'props': ['C06'], 'imports': []},
+    {'name': 'FieldOverlapPair', 'src': 'lentil/field.py', 'generator': generate_overlap_pair, 'props': ['C06'], 'imports': ['LentilVerif.Gen.Extent']},
+    {'name': 'FieldReduceFlow', 'src': 'lentil/field.py', 'generator': generate_reduce_flow, 'props': ['C06'], 'imports': []},
+    {'name': 'FieldMergeFlow', 'src': 'lentil/field.py', 'generator': generate_merge_flow, 'props': ['C06'],
+     'imports': ['LentilVerif.Gen.FieldIdx', 'LentilVerif.Gen.FieldMerge']},
     {'name': 'FieldInit', 'src': 'lentil/field.py', 'generator': generate_field_init, 'props': ['C06'], 'imports': ['LentilVerif.Gen.Extent']},
     {'name': 'FieldMulArray', 'src': 'lentil/field.py', 'generator': generate_mul_array, 'props': ['C06'], 'imports': ['LentilVerif.Gen.Extent']},
     {'name': 'FieldBroadcast', 'src': 'lentil/field.py', 'sigs': FIELDBROADCAST, 'props': ['C06'], 'imports': []},
